@@ -116,8 +116,12 @@ pub fn check_unary(rope: &Rope<'_>, s: &str) -> Result<(), String> {
     (0..s.len() + 2).collect()
   } else {
     let mut v: Vec<usize> = vec![0, 1, 2, 3, s.len() / 2, s.len() - 2, s.len() - 1, s.len(), s.len() + 1];
-    for k in (64..s.len()).step_by(64) {
-      v.extend([k - 2, k - 1, k, k + 1, k + 2, k + 3]);
+    // (the first and the last four multiples of 64: the sweep is quadratic in the number of positions)
+    let mult: Vec<usize> = (64..s.len()).step_by(64).collect();
+    for (j, k) in mult.iter().copied().enumerate() {
+      if j < 4 || j + 4 >= mult.len() {
+        v.extend([k - 2, k - 1, k, k + 1, k + 2, k + 3]);
+      }
     }
     v.sort_unstable();
     v.dedup();
@@ -183,6 +187,10 @@ pub fn check_unary(rope: &Rope<'_>, s: &str) -> Result<(), String> {
     if !s.is_char_boundary(k) || !s.is_char_boundary(m) {
       continue;
     }
+    // long strings: the ends and every 61st position
+    if s.len() > 48 && k > 6 && k + 6 < s.len() && k % 61 != 0 {
+      continue;
+    }
     if let (Some(a), Some(b), Some(c)) = (rope.get_byte_slice(0..k), rope.get_byte_slice(0..m), rope.get_byte_slice(k..)) {
       // head(k) + head(len-k)
       let mut x = a.clone();
@@ -197,9 +205,6 @@ pub fn check_unary(rope: &Rope<'_>, s: &str) -> Result<(), String> {
       let ys = format!("{}{}", &s[k..], &s[..k]);
       ck!(format!("rotation at {k} == rope"), y == *rope, ys == s, s);
       ck!(format!("rope starts_with rotation at {k}"), rope.starts_with(&y), s.starts_with(&ys), s);
-    }
-    if s.len() > 48 && k > 6 && k + 6 < s.len() && k % 61 != 0 {
-      continue;
     }
   }
   // lines of slices are slices of lines: a derived rope is again a faithful rope
